@@ -513,3 +513,20 @@ Example ex_history :
             [HServe 0; HReturn 0; HServe 1; HRead 0; HRead 1; HReturn 1; HRead 0])
   = [(0%nat, [("y", "1")]); (1%nat, [("x", "2")]); (0%nat, [("y", "1")])].
 Proof. vm_compute. reflexivity. Qed.
+
+(* ====================================================================== agreement implies the property
+   For every case term (router or server kind, whatever was observed): if the verified model
+   reproduces the observations ([agrees]), then the property judgement computed from the route
+   tables only ([prop_ok]) holds.  So [prop_ok] can only fail where the implementation left the
+   model, and — with the theorems above — everything [prop_ok] demands is something the model is
+   proved to do. *)
+Theorem agrees_implies_prop_ok : forall c, agrees c = true -> prop_ok c = true.
+Proof. exact L_agrees_implies_prop_ok. Qed.
+Print Assumptions agrees_implies_prop_ok.
+
+(* the case table does not distinguish observations that differ only in the order a map or the
+   Allow list is written in *)
+Theorem case_table_up_to_listing_order : forall T nf na m segs a b, response_eqb a b = true ->
+  obs_ok T nf na m segs b -> obs_ok T nf na m segs a.
+Proof. exact obs_ok_eqb. Qed.
+Print Assumptions case_table_up_to_listing_order.
